@@ -20,7 +20,7 @@ def run(ctx):
         "modelled, not verified: JSON decoding of the handshake messages (C05), a second mining.configure on a connection that already has a destination and requests before any destination exists other than configure/subscribe/authorize (they crash the process: C05), error-array replies to configure/subscribe",
     ]
     ctx.assumptions += ["one message at a time (pipeDuplexSync) with quiescence between events", "request ids are not reused while a reply is pending"]
-    L.regen(ctx, ["Wiring"])
+    L.regen(ctx, ["Wiring", "C15"])
     L.prove(ctx)
     if not L.build_driver(ctx):
         return
